@@ -16,7 +16,7 @@ import time
 import z3
 
 sys.path.insert(0, os.path.dirname(os.path.dirname(os.path.abspath(__file__))))
-from engines.shadowsym.core import Engine, Inconclusive  # noqa: E402
+from engines.shadowsym.core import Engine, Inconclusive, Unsupported  # noqa: E402
 from engines.shadowsym.proxies import SymChar, SymStr, is_space_term  # noqa: E402
 from engines.shadowsym import driver  # noqa: E402
 from gen import pipeline  # noqa: E402
@@ -634,6 +634,263 @@ def strip_cont(line):
     return line
 
 
+# ---------------------------------------------------------------------------- L3 splicers on a declaration
+DECL_KEYS = ["c", "c_buf", "f", "py"]
+
+
+class DeclSplicerHarness(object):
+    """Every function declaration of the library carries `splicer: {c:, c_buf:, f:, py:}` with four different
+    symbolic lines, while file-level splicers with other text are supplied for every block: the body of each
+    emitted function must hold the line of ITS key (declaration beats file): c in the plain C wrapper, c_buf in
+    the *_bufferify wrapper, f in the Fortran procedure, py in the Python function.  The block is located
+    through the function that contains it (the name Shroud documents for that wrapper), not through its own name."""
+
+    def __init__(self, libname, n=2, twin=False):
+        self.libname, self.n, self.twin = libname, n, twin
+
+    def run(self, e):
+        self.zs = {k: [z3.Int("d%s_%d" % (k, i)) for i in range(self.n)] for k in DECL_KEYS}
+        e.assume(domain(list(self.zs.values())))
+        # the four lines differ (first characters pairwise distinct), so a swapped body is visible
+        firsts = [self.zs[k][0] for k in DECL_KEYS]
+        e.assume(z3.Distinct(*firsts))
+        for z in firsts:
+            e.assume(z3.Not(is_space_term(z)))
+        self.user = {k: SymStr(e, [SymChar(e, z) for z in self.zs[k]]) for k in DECL_KEYS}
+        d = pipeline.load_yaml(LIBS[self.libname])
+
+        def visit(node):
+            for sub in node.get("declarations") or []:
+                t = sub.get("decl", "")
+                if t and not re.match(r"\s*(class|namespace|enum|struct|typedef)\b", t):
+                    sub["splicer"] = {k: [self.user[k]] for k in DECL_KEYS}
+                visit(sub)
+        visit(d)
+        info = default_run(self.libname)
+        supplied = {"c": {}, "f": {}, "py": {}, "lua": {}}
+        for fname, (g, blocks) in sorted(info.items()):
+            for name in blocks:
+                supplied[g][name] = ["file_level_text();"]
+        return pipeline.run(d, splicers={g: nest(v) for g, v in supplied.items()}, deep=False)
+
+    def witness(self, m, what):
+        body = {k: "".join(chr(m.eval(z, model_completion=True).as_long()) for z in zs) for k, zs in self.zs.items()}
+        return {"level": "declaration", "library": self.libname, "user_lines": [body[k] for k in DECL_KEYS], "keys": DECL_KEYS, "what": what}
+
+    def body_in_function(self, lines, head_rx, comment):
+        """lines of the first splicer block after the first line matching head_rx (a function's heading)"""
+        start = None
+        for i, ln in enumerate(lines):
+            t = conc(ln)
+            if t is not None and head_rx.search(t):
+                start = i
+                break
+        if start is None:
+            return None
+        body, inside = [], False
+        for ln in lines[start + 1:]:
+            t = conc(ln)
+            if t is not None and "splicer begin" in t and not inside:
+                inside = True
+                continue
+            if t is not None and "splicer end" in t and inside:
+                return body
+            if inside:
+                body.append(ln)
+            elif t is not None and re.match(r"^\}|^\s*end (function|subroutine)\b", t):
+                return None
+        return None
+
+    def judge(self, e, kind, value):
+        cls = "declaration/%s" % self.libname
+        if kind == "exc":
+            w = self.witness(e.model(), "exception %s: %s" % (type(value).__name__, str(value)[:200]))
+            return {"cls": cls, "violation": w, "vkey": "exception:" + type(value).__name__}
+        r = value
+        J = Judge(e)
+        files = {f: split_lines(flatten(p)) for f, p in r.files.items() if group_of(f)}
+        nodes = []
+
+        def walk(n):
+            for f in getattr(n, "functions", []):
+                nodes.append(f)
+            for c in list(getattr(n, "classes", [])) + list(getattr(n, "namespaces", [])):
+                walk(c)
+        walk(r.library)
+        nchecked = 0
+        for f in nodes:
+            if J.fail:
+                break
+            if not f.splicer:
+                continue
+            fmt = f.fmtdict
+            todo = []
+            if f.wrap.c and fmt.inlocal("C_name"):
+                key = "c_buf" if f._generated == "arg_to_buffer" else "c"
+                todo.append(("c", key, re.compile(r"^[A-Za-z_][\w \*]*\b%s\(" % re.escape(fmt.C_name)), "C function %s" % fmt.C_name))
+            if f.wrap.fortran and fmt.inlocal("F_name_impl"):
+                todo.append(("f", "f", re.compile(r"(?i)^\s*(?:[\w()=, ]*\s)?(function|subroutine)\s+%s\(" % re.escape(fmt.F_name_impl)),
+                             "Fortran procedure %s" % fmt.F_name_impl))
+            if f.wrap.python and fmt.inlocal("PY_name_impl"):
+                todo.append(("py", "py", re.compile(r"^%s\($" % re.escape(fmt.PY_name_impl)), "Python function %s" % fmt.PY_name_impl))
+            for g, key, rx, label in todo:
+                found = None
+                for fname, lines in sorted(files.items()):
+                    if group_of(fname) != g or fname.endswith(".h"):
+                        continue
+                    body = self.body_in_function(lines, rx, comment_of(fname))
+                    if body is not None:
+                        found = body
+                        break
+                if found is None:
+                    if g == "c" or (g == "f" and f._generated != "arg_to_buffer" and f._PTR_F_C_index is None):
+                        if g == "c":
+                            J.valid(False, "%s (declared with a splicer) has no body block in the C output" % label)
+                            break
+                    continue
+                nchecked += 1
+                if not block_equiv(J, [chars_of(self.user[key])], found, "%s: body of the declaration's '%s' splicer" % (label, key)):
+                    break
+        if self.twin and not J.fail:
+            J.valid(False, "reachability twin")
+        if J.fail:
+            what, m = J.fail
+            return {"cls": cls, "violation": self.witness(m, what), "vkey": re.sub(r"\d+", "N", what)[:90]}
+        return {"cls": cls, "sample": self.witness(e.model(), None), "counters": {"blocks_checked": nchecked}}
+
+
+def make_decl(**kw):
+    return DeclSplicerHarness(**kw)
+
+
+# ---------------------------------------------------------------------------- L4 splicer files named in the YAML file
+SUPPLY_EXT = {"c": [".c", ".cpp", ".h", ".hpp", ".txt"], "f": [".f", ".f90", ".txt"],
+              "py": [".c", ".cpp", ".h", ".py", ".txt"], "lua": [".c", ".cpp", ".lua", ".txt"]}
+
+
+class SupplyHarness(object):
+    """`splicer: {c: [...], f: [...], py: [...], lua: [...]}` in the YAML file, through the real main_with_args on
+    temporary files: a file listed under a group supplies that group whatever its extension is (the engine picks
+    the extension); the other groups keep their defaults.  Bodies are concrete here (they come from disk)."""
+
+    def __init__(self, libname, group, twin=False):
+        self.libname, self.group, self.twin = libname, group, twin
+
+    def run(self, e):
+        from harness import C14
+        exts = SUPPLY_EXT[self.group]
+        v = z3.Int("ext")
+        e.assume(z3.And(v >= 0, v < len(exts)))
+        self.ext = exts[e.choose(v)]
+        info = default_run(self.libname)
+        self.block = None
+        for fname, (g, blocks) in sorted(info.items()):
+            if g == self.group:
+                cand = sorted(b for b in blocks if b.startswith("function.") or ".method." in b)
+                if cand:
+                    self.block, self.comment = cand[0], comment_of(fname)
+                    break
+        if self.block is None:
+            raise Unsupported("no function block in group %s of %s" % (self.group, self.libname))
+        fn = "user_%s%s" % (self.group, self.ext)
+        body = "%s splicer begin %s\nTAG_%s();\n%s splicer end %s\n" % (self.comment, self.block, self.group, self.comment, self.block)
+        d = pipeline.load_yaml(LIBS[self.libname])
+        d["splicer"] = {self.group: [fn]}
+        import yaml
+        text = yaml.safe_dump(d)
+        tmpfiles = {fn: body}
+        return run_main_with_files(text, tmpfiles)
+
+    def witness(self, what):
+        return {"level": "yaml-splicer-file", "library": self.libname, "group": self.group, "extension": self.ext,
+                "block": self.block, "user_lines": ["TAG_%s();" % self.group], "what": what}
+
+    def judge(self, e, kind, value):
+        cls = "supply/%s/%s" % (self.libname, self.group)
+        if kind == "exc":
+            return {"cls": cls, "violation": self.witness("exception %s: %s" % (type(value).__name__, str(value)[:200])),
+                    "vkey": "exception:" + type(value).__name__}
+        fail = None
+        info = default_run(self.libname)
+        seen = False
+        for f, p in value.files.items():
+            g = group_of(f)
+            if g is None:
+                continue
+            blocks, err = find_blocks(split_lines(flatten(p)), comment_of(f))
+            if err:
+                fail = "%s: %s" % (f, err)
+                break
+            for name, occ in blocks.items():
+                for body in occ:
+                    txt = ["".join(ln).strip() for ln in body]
+                    if g == self.group and name == self.block:
+                        seen = True
+                        if txt != ["TAG_%s();" % self.group]:
+                            fail = "block %s of the %s output does not hold the body from the file listed under '%s:' (%s): %r" % (
+                                name, g, self.group, self.ext, txt[:3])
+                    elif any(t.startswith("TAG_") for t in txt):
+                        fail = "the body supplied for group %s appears in %s block %s" % (self.group, g, name)
+            if fail:
+                break
+        if not fail and not seen:
+            fail = "block %s is missing from the %s output" % (self.block, self.group)
+        if self.twin and not fail:
+            fail = "reachability twin"
+        if fail:
+            return {"cls": cls, "violation": self.witness(fail), "vkey": re.sub(r"\d+", "N", fail)[:80]}
+        return {"cls": cls, "sample": self.witness(None)}
+
+
+def run_main_with_files(yaml_text, extra_files):
+    """the real main_with_args on a temporary directory holding lib.yaml and the given files; output in memory"""
+    import argparse
+    import shutil
+    import tempfile
+    from shroud import main as smain
+    import shroud.util as U
+    tmp = tempfile.mkdtemp(prefix="c12_")
+    cwd = os.getcwd()
+    files = {}
+    try:
+        os.chdir(tmp)
+        with open("lib.yaml", "w") as f:
+            f.write(yaml_text)
+        for n, t in extra_files.items():
+            with open(n, "w") as f:
+                f.write(t)
+
+        def mem_open(path, mode="r", *a, **k):
+            if "w" in mode:
+                return pipeline.MemFile(files, path)
+            return open(path, mode, *a, **k)
+        U.open = mem_open
+        U.print = lambda *a, **k: None
+        pipeline._restore_tables()
+        from shroud import wrapc, wrapp
+        wrapc.Wrapc.capsule_code, wrapc.Wrapc.capsule_order, wrapc.Wrapc.capsule_include = {}, [], {}
+        wrapp.Wrapp.capsule_code, wrapp.Wrapp.capsule_order = {}, []
+        try:
+            args = argparse.Namespace(cmake="", cfiles="", ffiles="", filename=["lib.yaml"], logdir="", outdir="",
+                                      outdir_c_fortran="", outdir_lua="", outdir_python="", outdir_yaml="", path=[],
+                                      write_helpers="", write_statements="", yaml_types="", write_version=False,
+                                      option=[], language=None)
+            smain.main_with_args(args)
+        finally:
+            del U.open
+            del U.print
+    finally:
+        os.chdir(cwd)
+        shutil.rmtree(tmp, ignore_errors=True)
+    r = pipeline.Result()
+    r.files = files
+    return r
+
+
+def make_supply(**kw):
+    return SupplyHarness(**kw)
+
+
 def merge_missing(dst, src, path=""):
     """merge src into dst; returns the first block name present in both (or None)"""
     dup = None
@@ -664,6 +921,33 @@ def confirm(w):
             return out
         return run
 
+    if w["level"] == "yaml-splicer-file":
+        h = SupplyHarness(w["library"], w["group"])
+        res = {}
+
+        def run_s(e):
+            e.assume(z3.Int("ext") == SUPPLY_EXT[w["group"]].index(w["extension"]))
+            return h.run(e)
+        Engine().explore(run_s, lambda e, kind, value: res.__setitem__("j", h.judge(e, kind, value)))
+        v = res.get("j", {}).get("violation")
+        return (v["what"] if v else None), None
+    if w["level"] == "declaration":
+        h = DeclSplicerHarness(w["library"], len(lines[0]))
+        res = {}
+
+        def run_d(e):
+            for k, sline in zip(DECL_KEYS, lines):
+                for i, ch in enumerate(sline):
+                    e.assume(z3.Int("d%s_%d" % (k, i)) == ord(ch))
+            return h.run(e)
+        saved = globals()["domain"]
+        globals()["domain"] = lambda zs: True
+        try:
+            Engine().explore(run_d, lambda e, kind, value: res.__setitem__("j", h.judge(e, kind, value)))
+        finally:
+            globals()["domain"] = saved
+        v = res.get("j", {}).get("violation")
+        return (v["what"] if v else None), None
     if w["level"] == "kernel":
         h = KernelHarness([len(s) for s in lines], w["comment"], w["names"], w["combo"], w.get("indent", 1),
                           via_file=w.get("via_file"))
@@ -785,6 +1069,13 @@ def main():
         for lib, subset in plibs:
             specs.append(("harness.C12", "make_pipeline", dict(libname=lib, shape=shape, subset=subset)))
             labels.append(("pipeline", shape, lib, subset))
+    for lib in ("geom", "clib"):
+        for n in ((1, 2) if tier == "quick" else (1, 2, 3)):
+            specs.append(("harness.C12", "make_decl", dict(libname=lib, n=n)))
+            labels.append(("declaration", n, lib))
+    for g in ("c", "f", "py", "lua"):
+        specs.append(("harness.C12", "make_supply", dict(libname="geom", group=g)))
+        labels.append(("yaml-splicer-file", g, "geom"))
     budget = 600 if tier == "quick" else 5000
     accs = driver.explore_many(specs, split_depth=8, time_budget_s=budget, max_decisions=50000)
     total = driver.Acc()
